@@ -82,8 +82,8 @@ CLAIMED = {
    technique="Coq specification proofs (filters, pairs, generic connected components) + exact comparison of graphs",
    design="6 C14"),
  "C15": dict(
-   text="Proof + differential exploration. Model/Orbit.v's bfs is the deque/visited loop of average_otoc. Proved for every n: the visited set is exactly the orbit, each element once (C15_bfs_is_orbit); OTOC symmetric in V,W by double counting (C15_symmetric); a<=s so OTOC in [-1,1]; V fixed by G gives orbit {V}; orbits depend only on the generated algebra (orbit lemma). Per run: (G,V,W) n<=4 (6): floats vs exact rationals 1-2a/s, swapped arguments, re-presented generating sets, graph complexity vs level-BFS mean distance, fourpoint vs its definition.",
-   note="Fuel exhaustion (None) is excluded by the statements and never observed. 'distance = shortest path' for graph complexity is compared with networkx per run, not proved (partial). No axioms.",
+   text="Proof + differential exploration. Model/Orbit.v's bfs is the deque/visited loop of average_otoc. Proved for every n: the visited set is exactly the orbit, each element once (C15_bfs_is_orbit); OTOC symmetric in V,W by double counting (C15_symmetric); a<=s so OTOC in [-1,1]; V fixed by G gives orbit {V}; orbits depend only on the generated algebra (orbit lemma); the level-by-level BFS of graph complexity labels every vertex of the orbit with its shortest-path distance from V, each vertex once, so the returned (sum,size) are the sum of distances and the orbit size (C15_complexity). Per run: (G,V,W) n<=4 (6): floats vs exact rationals 1-2a/s, swapped arguments, re-presented generating sets, graph complexity vs level-BFS mean distance, fourpoint vs its definition.",
+   note="Fuel exhaustion (None) is excluded by the statements and never observed. The model's level BFS (proved) is compared with the implementation's networkx-based value per run. No axioms.",
    technique="Coq BFS invariant proof + double-counting theorem; exact rational comparison with the implementation",
    design="6 C15"),
  "C12": dict(
